@@ -124,5 +124,16 @@ CLAIMED["C08"] = dict(
     note="Trusted: Lean kernel, harness/door, httparse (PrefixConsistent is a hypothesis, exercised), tokio channels/select. MAX_RAW_HEADERS_SIZE "
          "is re-extracted from the source into TT/Gen/Consts.lean on every run.",
 )
+CLAIMED["C09"] = dict(
+    text="One unbounded Lean theorem per modelled parser of untrusted bytes, in models whose primitives return `panic` exactly where "
+         "the Rust ones panic: the UDP stream decoder (no panic for every chunking, bounded buffer), the ICMP request decoder, IPv4/IPv6 "
+         "header skipping incl. extension-header chains, ICMP v4/v6 deserialisation and request extraction, the ClientHello prebuffer "
+         "(capped at 16 KiB), HTTP/1.1 head accumulation (bounded, one read per iteration), SOCKS5 replies (truncation = error) and "
+         "relayed datagrams, rule matching on malformed fields. Tied to the code by an exhaustive sweep of short strings over a reduced "
+         "alphabet appended to valid prefixes (~420k cases per quick run, compared with the models and run under catch_unwind).",
+    note="Trusted: Lean kernel, harness/door; third-party parsers (httparse, tls-parser, toml_edit, ipnet, hex, base64) are only "
+         "exercised as black boxes; origin HTTP responses are C17's subject. 'Loop without consuming input' is settled by structural "
+         "recursion / explicit fuel lemmas in the models (C06 chunk_ok, C08 no_spin, C11 skipIpv6Ext).",
+)
 NOT_CLAIMED = {p: "not yet built in this framework (planned, see DESIGN.md section 5)" for p in
-               ["C01", "C07", "C09", "C10", "C16", "C17", "C18", "C19", "C20"]}
+               ["C01", "C07", "C10", "C16", "C17", "C18", "C19", "C20"]}
